@@ -280,6 +280,10 @@ MUTANTS = [
     ("c03-not-restored", "C03", TOKF, "cur_bar_capacity_remaining = state_dict.get(\"cur_bar_capacity_remaining\", cur_bar_capacity_total)", "cur_bar_capacity_remaining = cur_bar_capacity_total", {"ST1", "ST2"}),
     ("c03-save-before-close", "C03", TOKF, "        # Close bar and handle rest buffer\n        if (cur_time_bar > 0 or cur_bar_has_notes) and cur_bar_capacity_remaining > 0:\n            _apply_rest(cur_bar_capacity_remaining)\n\n        # Update state dictionary\n        state_dict[\"cur_time\"] = cur_time",
      "        # Update state dictionary\n        state_dict[\"cur_time\"] = cur_time\n        # Close bar and handle rest buffer\n        if (cur_time_bar > 0 or cur_bar_has_notes) and cur_bar_capacity_remaining > 0:\n            _apply_rest(cur_bar_capacity_remaining)\n", {"ST3"}),
+    ("c03-close-partially-used-bar", "C03", TOKF, "        if (cur_time_bar > 0 or cur_bar_has_notes) and cur_bar_capacity_remaining > 0:\n            _apply_rest(cur_bar_capacity_remaining)",
+     "        if cur_bar_has_notes and 0 < cur_bar_capacity_remaining < cur_bar_capacity_total:\n            _apply_rest(cur_bar_capacity_remaining)", {"CLOSE"}),
+    ("c08-piece-object-as-condition", "C08", REL, "                if len(working_memory) == 0:\n                    if len(current_sequence._messages) > 0:",
+     "                if len(working_memory) == 0:\n                    if current_sequence:", {"OBJTRUTH"}),
     ("c03-stale-has-notes-flag", "C03", TOKF, "                    cur_bar_capacity_remaining = cur_bar_capacity_total\n                    cur_bar_has_notes = False", "                    cur_bar_capacity_remaining = cur_bar_capacity_total", {"CLOSE"}),
 ]
 
@@ -314,6 +318,16 @@ ANCHORS = {
 # replacements applied together; the check must stay silent on the result.  Every entry was first written to answer the
 # question "would a correct version of the change a seed made be reported?".
 EQUIVALENTS = [
+    ("signature-filters-merged-dict-by-kind", ("C07", "C15", "C13"), [(REL, "        current_ts_numerator = None\n        current_ts_denominator = None\n        current_key = None\n", "        current_signatures = dict()\n"),
+      (REL, "                elif msg.message_type == MessageType.TIME_SIGNATURE:\n                    if msg.numerator != current_ts_numerator or msg.denominator != current_ts_denominator:\n                        current_ts_numerator = msg.numerator\n                        current_ts_denominator = msg.denominator\n                    else:\n                        continue\n                elif msg.message_type == MessageType.KEY_SIGNATURE:\n                    if msg.key != current_key:\n                        current_key = msg.key\n                    else:\n                        continue\n", "                elif msg.message_type in (MessageType.TIME_SIGNATURE, MessageType.KEY_SIGNATURE):\n                    signature = (msg.numerator, msg.denominator, msg.key)\n                    if current_signatures.get(msg.message_type) == signature:\n                        continue\n                    current_signatures[msg.message_type] = signature\n")]),
+    ("signature-filters-tuple-in-force", ("C07", "C15", "C12"), [(REL, "        current_ts_numerator = None\n        current_ts_denominator = None\n        current_key = None\n", "        current_ts = None\n        current_key = None\n"),
+      (REL, "                elif msg.message_type == MessageType.TIME_SIGNATURE:\n                    if msg.numerator != current_ts_numerator or msg.denominator != current_ts_denominator:\n                        current_ts_numerator = msg.numerator\n                        current_ts_denominator = msg.denominator\n                    else:\n                        continue\n                elif msg.message_type == MessageType.KEY_SIGNATURE:\n                    if msg.key != current_key:\n                        current_key = msg.key\n                    else:\n                        continue\n", "                elif msg.message_type == MessageType.TIME_SIGNATURE:\n                    if (msg.numerator, msg.denominator) == current_ts:\n                        continue\n                    current_ts = (msg.numerator, msg.denominator)\n                elif msg.message_type == MessageType.KEY_SIGNATURE:\n                    if msg.key == current_key:\n                        continue\n                    current_key = msg.key\n")]),
+    ("close-guard-chained-comparison", ("C03", "C01"), [(TOKF,
+      "        if (cur_time_bar > 0 or cur_bar_has_notes) and cur_bar_capacity_remaining > 0:\n            _apply_rest(cur_bar_capacity_remaining)",
+      "        if (cur_bar_has_notes or 0 < cur_time_bar) and 0 < cur_bar_capacity_remaining <= cur_bar_capacity_total:\n            _apply_rest(cur_bar_capacity_remaining)")]),
+    ("split-piece-tests-by-truthiness-of-lists", ("C08", "C09"), [(REL,
+      "                if len(working_memory) == 0:\n                    if len(current_sequence._messages) > 0:",
+      "                if not working_memory:\n                    if current_sequence._messages:")]),
     ("pad-measure-as-sum", ("C18", "C10", "C09"), [(REL,
       "        current_length = 0\n        default_channel = None\n\n        for msg in self._messages:\n            if default_channel is None and msg.channel is not None:\n                default_channel = msg.channel\n\n            if msg.message_type == MessageType.WAIT:\n                current_length += msg.time\n\n                if current_length >= padding_length:\n                    break\n",
       "        default_channel = next((msg.channel for msg in self._messages if msg.channel is not None), None)\n        current_length = sum(msg.time for msg in self._messages if msg.message_type == MessageType.WAIT)\n")]),
